@@ -1,7 +1,7 @@
 Require Extraction.
 Require Import ExtrOcamlBasic.
 From GoPdf.Base Require Import WireAnchor.
-From GoPdf.C14 Require Import SimpleEnc CidEnc Widths Encoding.
+From GoPdf.C14 Require Import SimpleEnc CidEnc Widths Encoding VMetrics Utf16.
 Separate Extraction wire_anchor
   init encode get_code get codes cid_of nused default_width s_err
   tounicode_omit tounicode_all reader_text writer_tu writer_tu_prefix writer_text
@@ -9,4 +9,5 @@ Separate Extraction wire_anchor
   finit fencode fget_code fget id_all id_rev id_split tbl_all tbl_rev tbl_all_sound
   as_pdf_simple extract_simple as_pdf_type3 extract_type3 simple_encoding
   simple_first_last simple_widths read_simple
-  encode_w decode_w last_assign cid_width.
+  encode_w decode_w last_assign cid_width w_of_map read_cid_width dict_width code_used
+  encode_v decode_v vlast_assign encode_dw2 decode_dw2 encode16 decode16.
